@@ -20,9 +20,9 @@ RULE = ("clique covers from (a) random clique hypergraphs, (b) real covers produ
         "below the maximum; distinct = SHA-1 of the concrete cover")
 ASSUMPTIONS = ["vertex ids contiguous from 0 or 1 and every vertex occurs in the cover (as the property stipulates)",
                "probabilities compared at 1e-12"]
-HEADLINE = ["covers", "src_random", "src_eecc", "src_mpcc", "src_adversarial", "one_based", "absent_sizes_ge2", "vertices_recounted", "pipeline_runs", "pipeline_motifs"]
+HEADLINE = ["covers", "src_random", "src_eecc", "src_mpcc", "src_adversarial", "one_based", "absent_sizes_ge2", "size_ge9", "vertices_recounted", "pipeline_runs", "pipeline_motifs"]
 REQUIRED = {t: {"src_random": 10, "src_eecc": 5, "src_mpcc": 5, "src_adversarial": 10, "one_based": 10,
-                "absent_sizes_ge2": 10, "pipeline_runs": 10} for t in ("quick", "thorough")}
+                "absent_sizes_ge2": 10, "pipeline_runs": 10, "size_ge9": 10} for t in ("quick", "thorough")}
 
 
 def gen_cases(tier, seed):
@@ -41,10 +41,10 @@ def build_cover(rng, res):
     import gcmpy
     if src in ("random", "adversarial"):
         if src == "random":
-            sizes = rng.sample(range(2, 8), rng.randint(1, 4))
+            sizes = rng.sample(range(2, 8), rng.randint(1, 4)) if rng.random() < 0.7 else rng.sample(range(2, 20), rng.randint(1, 5))
         else:
-            sizes = rng.choice([[2, 4], [2, 5], [3, 5, 6], [4], [2, 3, 4, 5, 6, 7], [2, 7], [3, 6], [5], [2, 3], [4, 7]])
-        n = rng.randint(max(sizes), 30)
+            sizes = rng.choice([[2, 4], [2, 5], [3, 5, 6], [4], [2, 3, 4, 5, 6, 7], [2, 7], [3, 6], [5], [2, 3], [4, 7], [2, 9], [3, 10], [2, 17], [2, 9, 10], [3, 33], [2, 3, 5, 8, 13, 34], [16, 17], [2, 10]])
+        n = rng.randint(max(sizes), max(30, max(sizes) + 6))
         cover = []
         for s in sizes:            # every size really occurs
             cover.append(rng.sample(range(n), s))
@@ -125,6 +125,8 @@ def check_cover(res, cover, rng, path):
     absent = [s for s in range(2, max(sizes)) if s not in sizes]
     if len(absent) >= 2:
         res.count("absent_sizes_ge2")
+    if max(sizes) >= 9:
+        res.count("size_ge9")
     # pipeline: sample and generate with clique motifs of the reported sizes
     if rng.random() < 0.35:
         res.count("pipeline_runs")
